@@ -280,6 +280,29 @@ func encoderLaws(seed int64) int {
 			}
 		}
 	}
+	// responses of any message length: the encoder either refuses or emits exactly the wire format
+	for _, res := range []bool{true, false} {
+		for _, l := range []int{254, 255, 256, 1000, 65531, 65532, 65533, 65534, 65535, 65536, 70000} {
+			resp := sasl.Response{Result: res, Message: mk(l)}
+			data, err := resp.Marshal()
+			n++
+			if err != nil {
+				continue
+			}
+			var buf bytes.Buffer
+			if e2 := resp.Encode(&buf); e2 == nil {
+				data = buf.Bytes()
+			}
+			word := "NO"
+			if res {
+				word = "OK"
+			}
+			want := word + " " + resp.Message
+			if len(data) < 2 || int(data[0])<<8|int(data[1]) != len(data)-2 || len(want) > 65535 || string(data[2:]) != want {
+				violate("response-encode:format-long-message", fmt.Sprintf("message of %d bytes: %d bytes emitted with length prefix %d", l, len(data), int(data[0])<<8|int(data[1])), nil)
+			}
+		}
+	}
 	for _, res := range []bool{true, false} {
 		for _, l := range []int{0, 1, 2, 100, 252, 253} {
 			resp := sasl.Response{Result: res, Message: mk(l)}
